@@ -10,6 +10,7 @@ import (
 	"runtime"
 	"runtime/debug"
 	"sort"
+	"strings"
 	"sync"
 	"time"
 )
@@ -165,6 +166,20 @@ func main() {
 	} else {
 		fmt.Fprintf(os.Stderr, "unknown property %q\n", *prop)
 		os.Exit(2)
+	}
+	if d := os.Getenv("VERIF_LODUMP"); d != "" { // debug aid: VERIF_LODUMP=<module dir>|<package path> prints the lock-order edges
+		parts := strings.SplitN(d, "|", 2)
+		run := &Run{Prop: "DBG", rules: map[string]*RuleInfo{}}
+		c := &Ctx{Run: run, mods: map[string]*Module{}, ixs: map[string]*PkgIndex{}, les: map[string]*LockEngine{}}
+		ix := c.Index(parts[0], parts[1])
+		lo := newLockOrder(ix, c.Locks(ix))
+		lo.Build()
+		for x, m := range lo.Edges {
+			for y, w := range m {
+				fmt.Printf("%s -> %s : %s\n", x, y, w)
+			}
+		}
+		os.Exit(0)
 	}
 	exit := 0
 	for _, id := range ids {
